@@ -28,7 +28,7 @@ Holds(c, T, e) ==
          (e.res = "ok" /\ ~e.nonfinite) =>
             \E i \in DOMAIN ls :
                LET w == ValueOf(ls[i], T.meta.eol, T.meta.style, e.letters) IN
-               w.ok /\ Faithful(w, e.x, e.ulp, T.meta.dp)
+               w.ok /\ Faithful(w, e.x, e.ulp, e.dp)     \* the precision configured when the call was made
     [] c = "C08_NonFinite" -> e.nonfinite => (e.res = "ValueError" /\ e.out = <<>>)
 Ante(c, T, e) ==
   CASE c = "C08_NonFinite" -> e.nonfinite
